@@ -56,13 +56,13 @@ JUDGES = {"doc": judge}
 
 def shards(tier, seed):
     T = tier == "thorough"
-    return [{"name": "orderings", "exhaustive": "all 326 duplicate-free orderings of subsets of the 5 standard domain fields", "reps": 8 if T else 2},
+    return [{"name": "orderings", "exhaustive": "all 326 duplicate-free orderings of subsets of the 5 standard domain fields", "reps": 40 if T else 2},
             {"name": "repetition-0", "part": 0, "parts": 4, "exhaustive": "all 3906 sequences of length <= 5 over the 5 standard fields"},
             {"name": "repetition-1", "part": 1, "parts": 4}, {"name": "repetition-2", "part": 2, "parts": 4},
             {"name": "repetition-3", "part": 3, "parts": 4},
-            {"name": "foreign", "reps": 4 if T else 1, "exhaustive": "a foreign member inserted at every position of every legal domain type"},
-            {"name": "substitutions", "reps": 3 if T else 1, "exhaustive": "every standard field x 18 type substitutions, alone and inside every legal domain"},
-            {"name": "misc", "reps": 30 if T else 4}]
+            {"name": "foreign", "reps": 12 if T else 1, "exhaustive": "a foreign member inserted at every position of every legal domain type"},
+            {"name": "substitutions", "reps": 12 if T else 1, "exhaustive": "every standard field x 18 type substitutions, alone and inside every legal domain"},
+            {"name": "misc", "reps": 100 if T else 4}]
 
 
 def _doc(rng, members, cls, shown=None, domain_override=None, drop_domain_type=False, extra_types=None):
